@@ -149,8 +149,33 @@ class Heap:
         self.c[name] = arr
 
 
+_INTERN = {}
+
+
+def intern_id(text):
+    """abstract identity of a constant string: a distinct integer >= 10**9 per distinct text"""
+    if text not in _INTERN:
+        _INTERN[text] = 10 ** 9 + len(_INTERN)
+    return z3.IntVal(_INTERN[text])
+
+
+class POpaque(PAny):
+    """arbitrary Python object known only by an abstract identity (equal ids <=> same value)"""
+    kind = "opaque"
+
+
+class PList(PV):
+    """list display used only as a value (membership tests against literal lists): never stored"""
+    kind = "listlit"
+
+    def __init__(self, items):
+        self.items = list(items)
+
+
 def ival(v):
     """Int term of a value usable as an integer / cell content"""
+    if isinstance(v, PStr) and v.text is not None:
+        return intern_id(v.text)
     if isinstance(v, PInt):
         return v.t
     if isinstance(v, PAny):
@@ -202,7 +227,7 @@ def merge_val(c, a, b):
     if isinstance(a, PGhost):
         return a if a.t.eq(b.t) else PGhost(z3.If(c, a.t, b.t))
     if isinstance(a, PAny):
-        return a if a.t.eq(b.t) else PAny(z3.If(c, a.t, b.t))
+        return a if a.t.eq(b.t) else type(a)(z3.If(c, a.t, b.t))
     if isinstance(a, PBool):
         return a if a.b.eq(b.b) else PBool(z3.If(c, a.b, b.b))
     if isinstance(a, PNone):
@@ -240,8 +265,8 @@ class Callee:
 
 
 class Env:
-    def __init__(self, **kw):
-        self.__dict__.update(kw)
+    def __init__(*args, **kw):          # no named `self`: contracts of methods have a parameter called self
+        args[0].__dict__.update(kw)
 
 
 class PyExec:
@@ -307,6 +332,9 @@ class PyExec:
     def truth(self, st, v, node=None):
         if isinstance(v, PBool):
             return v.b
+        if isinstance(v, POpaque):
+            # truth value of an arbitrary Python object: an uninterpreted predicate of its identity
+            return z3.Function("truthy", IntSort, z3.BoolSort())(v.t)
         if isinstance(v, (PInt, PAny)):
             return v.t != 0
         if isinstance(v, PNone):
@@ -517,7 +545,10 @@ class PyExec:
         left = self.ev(st, n.left)
         conj = []
         for op, rn in zip(n.ops, n.comparators):
-            right = self.ev(st, rn)
+            if isinstance(op, (ast.In, ast.NotIn)) and isinstance(rn, (ast.List, ast.Tuple, ast.Set)):
+                right = PList([self.ev(st, x) for x in rn.elts])      # membership in a display: no allocation
+            else:
+                right = self.ev(st, rn)
             conj.append(self.compare(st, op, left, right, n))
             left = right
         return PBool(z3.And(*conj) if len(conj) > 1 else conj[0])
@@ -542,6 +573,8 @@ class PyExec:
         if isinstance(op, (ast.In, ast.NotIn)):
             if isinstance(b, PTuple):
                 r = z3.Or(*[self.eq(st, a, x, n) for x in b.items]) if b.items else z3.BoolVal(False)
+            elif isinstance(b, PList):
+                r = z3.Or(*[self.eq(st, a, x, n) for x in b.items]) if b.items else z3.BoolVal(False)
             elif isinstance(b, PRef) and b.cls == "set":
                 r = st.heap.mem(b.addr, ival(a))
             elif isinstance(b, PRef) and b.cls == "dict":
@@ -561,6 +594,12 @@ class PyExec:
     def eq(self, st, a, b, n):
         if isinstance(a, (PInt, PAny, PBool)) and isinstance(b, (PInt, PAny, PBool)):
             return self.as_int(st, a, n) == self.as_int(st, b, n)
+        # a heap cell / opaque value compared with a string constant: strings are abstracted to interned ids
+        # (distinct constants <-> distinct ids; every other id stands for "some other string")
+        if isinstance(a, PAny) and isinstance(b, PStr) and b.text is not None:
+            return a.t == intern_id(b.text)
+        if isinstance(b, PAny) and isinstance(a, PStr) and a.text is not None:
+            return b.t == intern_id(a.text)
         if isinstance(a, PStr) and isinstance(b, PStr):
             if len(a.codes) != len(b.codes):
                 return z3.BoolVal(False)
@@ -631,6 +670,8 @@ class PyExec:
             return PBool(t != 0)
         if kind == "any":
             return PAny(t)
+        if kind == "opaque":
+            return POpaque(t)
         if kind.startswith("ref:"):
             return PRef(kind[4:], t)
         if kind.startswith("opt:"):
@@ -950,6 +991,21 @@ class PyExec:
             raise OutOfSubset("statement %s (line %d)" % (type(n).__name__, n.lineno))
         return m(st, n)
 
+    def st_FunctionDef(self, st, n):
+        # nested function definitions are not executed; calls to them go through their contracts (callees)
+        if n.name not in self.callees:
+            raise OutOfSubset("nested function %s has no contract" % n.name)
+        self.dropped.add("body of nested function %s (called through its contract)" % n.name)
+        return [("normal", st, None)]
+
+    def ev_Dict(self, st, n):
+        if n.keys:
+            raise OutOfSubset("non-empty dict display")
+        a = self.alloc(st)
+        h = st.heap
+        h.set("dict.has", z3.Store(h.get("dict.has"), a, z3.K(IntSort, z3.BoolVal(False))))
+        return PRef("dict", a)
+
     def st_Pass(self, st, n):
         return [("normal", st, None)]
 
@@ -1159,6 +1215,9 @@ class PyExec:
         if n.orelse:
             raise OutOfSubset("for-else")
         inv = self.opt["invariants"].get(ordinal)
+        if (isinstance(n.iter, ast.Call) and isinstance(n.iter.func, ast.Attribute) and n.iter.func.attr == "items"
+                and not n.iter.args and not n.iter.keywords):
+            return self.for_dict_items(st, n, ordinal, inv)
         it = self.ev(st, n.iter)
         if not (isinstance(it, PRef) and it.cls == "list"):
             raise OutOfSubset("for over %s" % it.kind)
@@ -1179,6 +1238,31 @@ class PyExec:
             self.assign(s, n.target, v, n)
             s.vars[kname] = PInt(k + 1)
         return self.loop_inv(st, n, ordinal, inv, cond, n.body, pre_body, extra_mod=[kname] + names_in_target(n.target))
+
+    def for_dict_items(self, st, n, ordinal, inv):
+        """for k, v in d.items(): iteration order is arbitrary.  Ghost set $seen<n> of keys visited so far; each
+        iteration picks an arbitrary unvisited key; the loop ends when every key has been visited.  (Mutation of d
+        inside the loop would raise RuntimeError in CPython; the loop body must not store into d - checked
+        syntactically for direct stores through the iterated expression.)"""
+        d = self.ev(st, n.iter.func.value)
+        if not (isinstance(d, PRef) and d.cls == "dict"):
+            raise OutOfSubset("items() of %s" % d.kind)
+        if inv is None:
+            raise OutOfSubset("dict loop #%d needs an invariant" % ordinal)
+        sname = "$seen%d" % ordinal
+        st.vars[sname] = PGhost(z3.K(IntSort, z3.BoolVal(False)))
+        kq = z3.Int("k!items%d" % ordinal)
+
+        def cond(s):
+            return z3.Exists([kq], z3.And(s.heap.has(d.addr, kq), z3.Not(z3.Select(s.vars[sname].t, kq))))
+
+        def pre_body(s):
+            k = self.fresh("key@loop%d" % ordinal)
+            s.path.append(z3.And(s.heap.has(d.addr, k), z3.Not(z3.Select(s.vars[sname].t, k))))
+            s.vars[sname] = PGhost(z3.Store(s.vars[sname].t, k, z3.BoolVal(True)))
+            vkind = self.opt.get("dict_val_kind", "any")
+            self.assign(s, n.target, PTuple([PAny(k), self.cell_to_val(vkind, s.heap.val(d.addr, k))]), n)
+        return self.loop_inv(st, n, ordinal, inv, cond, n.body, pre_body, extra_mod=[sname] + names_in_target(n.target))
 
     def loop_inv(self, st, n, ordinal, inv, cond, body, pre_body, extra_mod=()):
         """inv: object with holds(ex, st, st0) -> [(label, Bool)], optional decreases(ex, st), optional
@@ -1242,7 +1326,7 @@ class PyExec:
         if isinstance(old, PInt):
             return PInt(self.fresh(tag))
         if isinstance(old, PAny):
-            return PAny(self.fresh(tag))
+            return type(old)(self.fresh(tag))
         if isinstance(old, PBool):
             return PBool(self.fresh(tag, z3.BoolSort()))
         if isinstance(old, PRef):
